@@ -801,6 +801,7 @@ func runC11(r *Result, d *drv.Driver, tier string, seed int64, replay string) {
 	c11Pipelined(r)
 	c11ListenerCloseFails(r)
 	c11SlowListenerClose(r)
+	c11ReadySignal(r)
 	c11ShutdownFirst(r, d)
 	c11AfterServeFailed(r)
 	c11HandshakeFailure(r)
